@@ -126,6 +126,10 @@ class Gen:
                 del f.prefixes[f.idx]
                 self.tns_only.add(f.idx)
                 self.features.add("own-namespace-without-prefix")
+            elif r.random() < self.cfg.get("own_ns_default", 0.15) and not (self.cfg["wsdl"] and f.idx == 0):
+                # the common "xmlns = targetNamespace" style: references to the file's own components carry no prefix
+                f.prefixes[f.idx] = ""
+                self.features.add("own-namespace-as-default")
             f.nested_xmlns = r.random() < self.cfg["nested_xmlns"]
             if f.nested_xmlns:
                 self.features.add("nested-xmlns")
